@@ -45,6 +45,8 @@ def cases(tier):
         yield ("quiet", n)
     for n in (1, 2, 3):
         yield ("dropped", n)
+    for n in (2, 3):
+        yield ("cross", n)
     # (kind, n, lo, hi, naming, mode)
     namings = (0,) if tier == "quick" else (0, 1)
     for n in (1, 2, 3, 4):
@@ -388,10 +390,11 @@ def _run_quiet(case):
     for es in G.dags(n):
         for kind in "dl":
             edges = tuple((c, p, kind) for c, p in es)
-            for qmask in range(1, 1 << n):
+            for qmask in range(1, 3 ** n):
                 for mode in ("api", "src"):
                     VL.reset()
-                    cls = lambda i: "Quiet" if qmask >> i & 1 else "Node"
+                    # every assignment of {Node, Quiet (returns nothing), Idle (does not read its inputs)} with at least one non-Node
+                    cls = lambda i: ("Node", "Quiet", "Idle")[qmask // 3 ** i % 3]
                     if mode == "src":
                         text = "\n".join(ln.replace("= Node(", "= %s(" % cls(i), 1) for i, ln in enumerate(G.render(n, edges, names).split("\n")))
                         p = Program.from_source(text, libraries=LIB)
@@ -399,7 +402,7 @@ def _run_quiet(case):
                         p = Program(libraries=LIB)
                         for i in range(n):
                             p.add_command(getattr(VL, cls(i)), names[i], dict(G.slots_of(n, edges, i, names)))
-                    tag = {"n": n, "edges": edges, "returns_nothing": [names[i] for i in range(n) if qmask >> i & 1], "mode": mode}
+                    tag = {"n": n, "edges": edges, "classes": [cls(i) for i in range(n)], "mode": mode}
                     sample = tag
                     evals += 1
                     try:
@@ -463,6 +466,55 @@ def _run_dropped(case):
                     elif any(got[i] != G.value(n, edges, i, names, memo) for i in range(n)):
                         viols.append(V("C01:dropped-program:wrong-value", "results differ from the reference", tag=tag))
                     outcomes["dropped:ok"] = outcomes.get("dropped:ok", 0) + 1
+    return {"evals": max(evals, 1), "nontrivial": evals, "judged": evals, "viols": viols[:20], "outcomes": outcomes, "sample": sample, "states": 0, "transitions": 0}
+
+
+def _run_cross(case):
+    """a command object of ANOTHER program (same model loaded twice: baseline and variant) given as a reference: the consumer is fed by
+    exactly that object, the variant's own command of the same name executes once for its own sake; every DAG n<=3 x every edge replaced"""
+    from mpilot.program import Program
+    from ..vlib import graph as VL
+
+    _, n = case
+    names = G.NAMINGS[0]
+    viols, outcomes = [], {}
+    evals = 0
+    sample = None
+    for es in G.dags(n):
+        if not es:
+            continue
+        for kind in "dl":
+            edges = tuple((c, p, kind) for c, p in es)
+            for ei, (c_, p_, _) in enumerate(edges):
+                for baseline_run_first in (False, True):
+                    VL.reset()
+                    base = Program(libraries=LIB)
+                    var = Program(libraries=LIB)
+                    for i in range(n):
+                        base.add_command(VL.Node, names[i], dict(G.slots_of(n, edges, i, names)))
+                    for i in range(n):
+                        slots = dict(G.slots_of(n, edges, i, names))
+                        if i == c_:
+                            foreign = base.commands[names[p_]]
+                            slots = {k: ([foreign if x == names[p_] else x for x in v] if isinstance(v, list) else (foreign if v == names[p_] else v)) for k, v in slots.items()}
+                        var.add_command(VL.Node, names[i], slots)
+                    tag = {"n": n, "edges": edges, "foreign_reference": [names[c_], names[p_]], "baseline_run_first": baseline_run_first}
+                    sample = tag
+                    evals += 1
+                    try:
+                        if baseline_run_first:
+                            base.run()
+                        del VL.FED[:]
+                        var.run()
+                    except Exception as exc:
+                        viols.append(V("C01:cross-program:raised:%s" % type(exc).__name__, "variant program with a command object of the baseline raised %r" % (exc,), tag=tag))
+                        continue
+                    want = id(base.commands[names[p_]]._result)
+                    got = [rid for cons, prod, fin, rid in VL.FED if cons == names[c_] and prod == names[p_]]
+                    if not got or any(g != want for g in got):
+                        viols.append(V("C01:cross-program:fed-by-same-named-own-command", "%s was given the BASELINE's command %s as an object but was fed another object" % (names[c_], names[p_]), tag=tag))
+                    k = "cross:%s" % ("ok" if got and all(g == want for g in got) else "bad")
+                    outcomes[k] = outcomes.get(k, 0) + 1
     return {"evals": max(evals, 1), "nontrivial": evals, "judged": evals, "viols": viols[:20], "outcomes": outcomes, "sample": sample, "states": 0, "transitions": 0}
 
 
@@ -589,6 +641,8 @@ def run(case):
         return _run_quiet(case)
     if case[0] == "dropped":
         return _run_dropped(case)
+    if case[0] == "cross":
+        return _run_cross(case)
     if case[0] == "graphs":
         return _run_graphs(case)
     return _run_hist(case)
